@@ -214,32 +214,65 @@ func runC19(c *kit.Ctx) {
 			}
 		}
 		for _, fn := range []*ssa.Function{lr, lar} {
-			// return on err == ErrClientClosed not preceded by the back-off
+			// once err == ErrClientClosed is known there is no way to the back-off (the comparison may feed a
+			// branch directly or a flag that is tested later)
 			found := false
 			kit.Instrs(fn, func(in ssa.Instruction) {
-				r, ok := in.(*ssa.Return)
-				if !ok {
+				bo, ok := in.(*ssa.BinOp)
+				if !ok || (bo.Op != token.EQL && bo.Op != token.NEQ) {
 					return
 				}
-				for _, f := range kit.FactsAt(r.Block()) {
-					if cmp, ok := kit.CanonCmp(f.Cond, f.Pol); ok && cmp.Op == token.EQL && (isGlobalLoad(cmp.Y, errClosed) || isGlobalLoad(cmp.X, errClosed)) {
-						found = true
-					}
+				if !(isGlobalLoad(bo.X, errClosed) || isGlobalLoad(bo.Y, errClosed)) {
+					return
+				}
+				again := kit.PathFrom(bo, kit.PathQuery{
+					Known: []kit.Fact{{Cond: bo, Pol: bo.Op == token.EQL}},
+					Target: func(x ssa.Instruction) bool {
+						call, ok := x.(*ssa.Call)
+						return ok && kit.CalleeName(call) == kit.M("", "", "sleepAndIncreaseBackoff")
+					},
+				})
+				if again == nil {
+					found = true
 				}
 			})
 			c.Check(found, fn, "lookup-returns-on-closed", fn.Pos(), "returns on ErrClientClosed without backing off", "the lookup loop no longer returns on ErrClientClosed: it keeps looking up (and backing off) after Close")
 		}
-		// establishRegion: return on ErrClientClosed without MarkAvailable
+		// establishRegion: return on ErrClientClosed without MarkAvailable - no way from the ErrClientClosed edge
+		// back to the back-off or the lookup (the return itself may be shared with other exits)
 		found := false
 		kit.Instrs(est, func(in ssa.Instruction) {
-			r, ok := in.(*ssa.Return)
+			iff, ok := in.(*ssa.If)
 			if !ok {
 				return
 			}
-			for _, f := range kit.FactsAt(r.Block()) {
-				if cmp, ok := kit.CanonCmp(f.Cond, f.Pol); ok && cmp.Op == token.EQL && (isGlobalLoad(cmp.Y, errClosed) || isGlobalLoad(cmp.X, errClosed)) && f.If.Block() == r.Block().Idom() {
-					found = true
-				}
+			cmp, ok := kit.CanonCmp(iff.Cond, true)
+			if !ok || !(isGlobalLoad(cmp.Y, errClosed) || isGlobalLoad(cmp.X, errClosed)) {
+				return
+			}
+			var eq *ssa.BasicBlock
+			switch cmp.Op {
+			case token.EQL:
+				eq = kit.SuccOnTrue(iff)
+			case token.NEQ:
+				eq = kit.SuccOnFalse(iff)
+			default:
+				return
+			}
+			// enter eq over the edge from the test, so that a block that only tests what it received is decided
+			again := kit.PathFrom(iff, kit.PathQuery{
+				SkipEdge: func(from, to *ssa.BasicBlock) bool { return from == iff.Block() && to != eq },
+				Target: func(x ssa.Instruction) bool {
+					call, ok := x.(*ssa.Call)
+					if !ok {
+						return false
+					}
+					n := kit.CalleeName(call)
+					return n == kit.M("", "", "sleepAndIncreaseBackoff") || n == kit.M("", "*client", "lookupRegion")
+				},
+			})
+			if again == nil {
+				found = true
 			}
 		})
 		c.Check(found, est, "establish-returns-on-closed", est.Pos(), "returns when the lookup reports ErrClientClosed", "establishRegion no longer stops when the client is closed")
